@@ -140,6 +140,7 @@ def badPattern : Bytes → Bool
 inductive Resolved where
   | fsError                                  -- any of doImport's file-system errors
   | files (fs : List (String × Bytes))
+deriving DecidableEq
 
 /-- the glob part of `doImport` for a pattern without path separators -/
 def resolve (fs : FS) (pat : Bytes) : Resolved :=
